@@ -74,6 +74,44 @@ def run(run, h):
     batch.flush()
 
 
+def small_order_token(run, h, pts, rng, M, tok, old, true_new, nonce, amt, ctx):
+    """a pay proof for an INVENTED old state (customer balance raised by 10^6; no token on it was ever issued), otherwise built
+    exactly as the honest prover builds it, whose shown pay token is replaced in the bytes by curve points of order 3 -
+    (P, identity) and (P, P'): a pairing with a small-order point is trivial, so such a 'signature' would satisfy the pairing
+    equation for every message commitment. The Fiat-Shamir challenge covers the shown token, so the proof is drafted, the
+    verifier's challenge is read, and the responses are recomputed for it. The decoder must refuse (not group elements)."""
+    def p3():
+        return next((c for c in (h.call("g1_curve_mul", rng.randrange(2 ** 31), hx((Q * 0x396c8c005555e1568c00aaab0000aaab // 3).to_bytes(49, "big")))[0]
+                                 for _ in range(6)) if c != "c0" + "00" * 47), None)
+    small, small2 = p3(), p3()
+    if small is None or small2 is None:
+        return
+    oldm = list(old)
+    oldm[3] = (old[3] + 10 ** 6) % Q
+    new = list(true_new)
+    new[3] = (oldm[3] - amt) % Q
+    if not in_range(new[3]):
+        return
+    newc = [new[0], CLOSE, new[2], new[3], new[4]]
+    d = rand_pay_draws(rng)
+    dig = ((digits(new[3]),) * 2, (digits(new[4] % 2 ** 63),) * 2)
+    for nm, a1, a2 in (("order3_point_and_identity", small, "c0" + "00" * 47), ("two_order3_points", small, small2)):
+        def forged(c):
+            wire = pay_wire(pts, build_pay(M, tok, oldm, new, newc, oldm[2], dig[0], dig[1], d, c))
+            return wire[:128] + a1 + a2 + wire[320:]
+        h.begin()
+        r0 = merchant_allow(h, M, amt, nonce, forged(1), ctx, u=rand_nz(rng))
+        accepted = False
+        if r0["chal"] is not None:
+            r = merchant_allow(h, M, amt, nonce, forged(r0["chal"]["c"]), ctx, u=rand_nz(rng))
+            accepted = r["ok"]
+        case = {"op": "forgery", "variant": "token_" + nm, "strategy": "f_point_outside_the_group", "old": oldm, "new": new,
+                "decoded": r0["chal"] is not None, "accepted": accepted, "script": h.end()}
+        run.case(case)
+        run.count("forger f_point_outside_the_group")
+        run.check_monitor("false_statement_rejected", not accepted, case)
+
+
 def generated_merchant_payment(run, h, rng):
     """a merchant from merchant::Config::new: after an honest payment the closing signature and the new pay token must cover
     exactly the old balances moved by the amount - no state with one slot changed, and none in which value was moved between
@@ -234,6 +272,7 @@ def forger_family(run, h, pts, batch, rng, M, M2, tok, old, st, nonce, amt, ctx)
                 continue
             attempt(run, h, pts, batch, rng, M, M2, tok, old, true_new, nonce, amt, ctx, name, dev, strat)
     compensating_family(run, h, pts, batch, rng, M, tok, old, true_new, nonce, amt, ctx)
+    small_order_token(run, h, pts, rng, M, tok, old, true_new, nonce, amt, ctx)
 
 
 def compensating_family(run, h, pts, batch, rng, M, tok, old, true_new, nonce, amt, ctx):
